@@ -76,7 +76,7 @@ impl Property for C05 {
         "generated register-language configuration (scratch pools of 0..4 registers per type, optional anti-scratch instruction) + typed body mentioning registers in every position (assignment targets/sources, aliases and raw spellings, both sigils, difficulty switches, call arguments, conditions, times clobbers, --x); checked: every compiler-chosen register is general-use, unmentioned, not shared by locals with overlapping lexical scope, and emitted register operands are mentioned or bound; non-trivial = >= 2 locals/temporaries bound and >= 1 scratch register of the same type mentioned in the source"
     }
     fn tape_len(&self, tier: Tier) -> usize { tier.pick(400, 700) }
-    fn cases(&self, tier: Tier) -> u32 { tier.pick(4000, 300000) }
+    fn cases(&self, tier: Tier) -> u32 { tier.pick(200000, 4000000) }
     fn required_labels(&self, _tier: Tier) -> Vec<&'static str> { vec!["bound>=2", "scratch_mentioned", "anti_scratch_present", "anti_scratch_rejected", "too_complex_rejected", "named_overlap"] }
 
     fn generate(&self, tape: &mut Tape, _tier: Tier, known: &Known) -> Value {
